@@ -235,12 +235,19 @@ func runC09(w *World, tier string) (bool, interface{}) {
 			id := freshRoundID(w, uint64(len(w.Board.Msgs)))
 			parts, thr := reinitParticipants(w, m.DkgRoundID)
 			env := reinitEnvelope(w, by, id, thr, parts, []storage.Message{x})
-			if w.Tape.Bool(1, 2, "payloadNamesLiveRound") {
+			switch w.Tape.Choose(3, "envelopeShape") {
+			case 1:
 				// the file inside names the live round itself, only the envelope
 				// carries the unused id
 				env = reinitEnvelope(w, by, m.DkgRoundID, thr, parts, []storage.Message{x})
 				env.DkgRoundID = id
 				env.Signature = ed25519.Sign(w.Nodes[by].Priv, env.Bytes())
+			case 2:
+				// the other way round: the envelope names the live round, the file
+				// inside reinitialises the unused id
+				env.DkgRoundID = m.DkgRoundID
+				env.Signature = ed25519.Sign(w.Nodes[by].Priv, env.Bytes())
+				w.Stats.Fault("reinit-envelope-names-live-round")
 			}
 			injected++
 			kinds = append(kinds, "reinit-wrapped/"+kind+"@"+m.Event)
